@@ -40,6 +40,15 @@ cell-boundary candidate of every cell system is a time until which the active un
 `c11_active_in_recorded_cell_closed3`; (c) `candOK_closed3`, `commit_times_sorted_closed3`, `no_sample_skipped3`; instantiated by
 `decide` for the six shipped composite wirings with cells, with a concrete multi-leg run of `dipoles/cell_bounded.ini` (`Example`).
 
+**What is still assumed, by name.**  `CandsOK3` — about the candidate request of the cell-boundary handler of system `l`: its in-state
+unit is the active unit on the cell level of `l` (`activeOn env l cs = [a]`, the same assertion `SingleActiveCellOccupancy.update` makes),
+that unit is in the box (`InBox`), moves in a direction of the geometry (`velOK`), its time stamp IS the time of the last commit
+(`last = .fin ts`), and the candidate is exactly `ts + ttb pos vel`; about every other handler: normalised finite or `inf`, not before
+the last commit.  (E9 derived `InBox`, `velOK` and `ts = last commit` from C07's kinematic invariant `KinI`; C12's `Good` of the
+composite machine has no in-box / time-stamp clause, so here they are conditions on the step relation, to be MEASURED at every
+cell-boundary candidate request.)  `Commits3` / `EvAdm3` — kinds of the handler class in leaf mode, `AdmW`, leaf start.  `TieFree3`.
+`Geo` per cell system (`axisGeoPos`: positive axis direction only, as in E9).  `Init3`.
+
 **Not reached** (d): C11's full `OccInv` per cell system (`c11_occinv_closed3` does not exist): it needs `hmove` of `C11.update_inv` at
 LIFTING commits — i.e. `Big3.stays` also for the commits that DO change the active unit, which the present `stays` does not cover (it is
 stated for `affects · (.cell l) = false` only; the argument is the same with a stronger no-tie hypothesis, E9's `TieFreeAll`) — and the
@@ -394,4 +403,395 @@ theorem hyp3L_hard_disk_dipoles_cells (env : Env ℚ) (hL : BoxOK env.base.d env
 example : cbWired3 { cfg_dipoles_cell_bounded with taggers := cfg_dipoles_cell_bounded.taggers.map fun t =>
     if t.kind == .cellBoundary then { t with cls := .cellVeto } else t } 9 = false := by decide +kernel
 
+/-! ## non-vacuity: a four-leg run of `dipoles/cell_bounded.ini` with two dipoles (exact reading)
+
+The two dipoles of `JF/Props/C12.lean` in the unit square (`exC0`: centre (1/2, 1/2); `exC1`: centre (1/10, 1/5)), ONE occupancy on the
+root level (`cell_level = 1`) over a 4 × 4 grid with one layer of nearby cells, `maximum_number_occupants = 1`, geometry
+`axisGeoPos` (positive axis direction).  Four legs of the composed system, every one computed by `JF.Med.leg` (`decide +kernel`):
+start of run at 0 (point mass (0, 0) starts with velocity (1, 0); the centre of dipole 0 moves with (1/2, 0)) — the sampling event
+at 1/8 while the cell-boundary candidate `0 + timeToBoundary = 1/2` of the ROOT unit is pending (the derived premise) — that
+cell-boundary event (the centre reaches x = 3/4, cell (3, 2)) — the `harmonic` event at 5/8 handed out in leg 2 (lifting
+(0, 0) → (0, 1) inside the molecule).  Every hypothesis of the theorems above holds for it: `Hyp3L` (`hyp`), the geometry (`geo`),
+`Reach3` (`reach4`), `TieFree3` (`tieFree4`). -/
+
+namespace Example
+open JF.C11
+
+abbrev mw : ModeWiring := mcfg_dipoles_cell_bounded
+abbrev cfg : Wiring := cfg_dipoles_cell_bounded
+
+/-- four cells of side 1/4 per direction -/
+def g4 : Grid := ⟨4, 1 / 4, by decide, by norm_num⟩
+
+/-- the occupancy's environment: root level (`cell_level = 1`), 4 × 4 cells, index of cell (ix, iy) in `yield_cells()` order = ix + 4 iy -/
+def oe : OccEnv ℚ :=
+  { level := 1, grid := ⟨[4, 4], 1⟩
+    cellOf := fun p => (g4.idx (p.getD 0 0)).toNat + 4 * (g4.idx (p.getD 1 0)).toNat
+    relevant := fun _ => true }
+
+def env : Env ℚ :=
+  { base := Footprints2.envOf exL 2 "factor_set_dipoles_dipole.txt"
+      ["CoulombCellBounding", "CoulombNearby", "CoulombSurplus", "CellBoundary", "Harmonic", "Repulsive", "Sampling", "EndOfChain",
+       "EndOfRun", "StartOfRun"]
+    occs := [oe] }
+
+theorem box : BoxOK env.base.d env.base.L := exBox
+
+def abox (l : Nat) : AxisBox (cwEnv env l) where
+  grids := [g4, g4]
+  hn2 := by intro g hg; simp at hg; subst hg; decide
+  hL := by show exL = _; simp [exL, Grid.L, g4]
+  hcell := by
+    intro p q hp hq h
+    have hpl : p.length = 2 := ((Kin.inBox_iff _ _).mp hp).1
+    have hql : q.length = 2 := ((Kin.inBox_iff _ _).mp hq).1
+    obtain ⟨p0, p1, rfl⟩ := List.length_eq_two.mp hpl
+    obtain ⟨q0, q1, rfl⟩ := List.length_eq_two.mp hql
+    have h0 := h 0 (by simp) (by simp) (by simp)
+    have h1 := h 1 (by simp) (by simp) (by simp)
+    simp only [List.getElem_cons_zero, List.getElem_cons_succ] at h0 h1
+    match l with
+    | 0 => show (g4.idx p0).toNat + 4 * (g4.idx p1).toNat = (g4.idx q0).toNat + 4 * (g4.idx q1).toNat; rw [h0, h1]
+    | l + 1 => rfl
+
+def geo (l : Nat) : Geo (cwEnv env l) := axisGeoPos (abox l)
+
+/-- a handler has an in-state iff its tagger is not a `NoInStateTagger` -/
+def needs : HandlerId → Bool := fun h =>
+  match owner cfg.wires h with
+  | some T => (cfg.tagger T).cls != .noInState
+  | none => false
+
+abbrev M : MWire := mwire cfg 9 needs
+
+theorem hyp : Hyp3L env mw 9 := hyp3L_dipoles_cell_bounded env box
+
+theorem ex_uniform : CW2.Uniform env.base.nPer [exC0, exC1] := by
+  intro c hc
+  simp only [List.mem_cons, List.not_mem_nil, or_false] at hc
+  rcases hc with rfl | rfl <;> rfl
+
+/-- `SingleActiveCellOccupancy.initialize`: dipole 0 in cell (2, 2) = 10, dipole 1 in cell (0, 0) = 0 -/
+def occ0 : Occ.State := Occ.init 1 [⟨0, true, 10⟩, ⟨1, true, 0⟩]
+def s0 : Sys3 := Sys3.init cfg [exC0, exC1] [occ0]
+
+theorem init0 : Init3 env mw s0 where
+  med := rfl
+  good := ex_initial
+  unif := ex_uniform
+  rest := ex_rest
+  cons := fun l hl => by
+    have : l = 0 := Nat.lt_one_iff.mp hl
+    subst this
+    exact consistent_init _ _ _
+  prev := rfl
+
+theorem ok_of_toOption {ε α : Type} {e : Except ε α} {x : α} (h : e.toOption = some x) : e = .ok x := by
+  cases e with
+  | error _ => simp [Except.toOption] at h
+  | ok y => simp only [Except.toOption, Option.some.injEq] at h; rw [h]
+
+/-- the result of a leg that succeeds -/
+def legR (s : Sys3) (o : Oracle XTime) (h : (leg M (specI xcfg) s.med o).toOption.isSome = true) :
+    MedState (SSched XTime) × Committed XTime := (leg M (specI xcfg) s.med o).toOption.get h
+
+/-- the state after it, given the new global state and the occupancies the leg worked with -/
+def nextS (s : Sys3) (o : Oracle XTime) (h : (leg M (specI xcfg) s.med o).toOption.isSome = true)
+    (cs' : List (CObj ℚ)) (occs' : List Occ.State) : Sys3 :=
+  ⟨(legR s o h).1, cs', occs', assign s.ids (legR s o h).2.created, s.cs, midAct M s.med o⟩
+
+/-- the oracle of a leg: the yields are computed from the state, the candidate times are given -/
+def mkO (cs : List (CObj ℚ)) (occs' : List Occ.State) (cand : HandlerId → XTime) : Oracle XTime :=
+  ⟨fun T => yieldCls3 env T (cfg.tagger T).cls (cfg.tagger T).label cs occs', cand⟩
+
+theorem step_of (s : Sys3) (occs' : List Occ.State) (cand : HandlerId → XTime)
+    (h : (leg M (specI xcfg) s.med (mkO s.cs occs' cand)).toOption.isSome = true) (cs' : List (CObj ℚ))
+    (hocc : if s.med.act.started = true then OccsUpdated env mw.w.labels.length s.occs occs' s.cs else occs' = s.occs)
+    (hc : CandsOK3 env geo mw s.cs s.med.sched.last (mkO s.cs occs' cand) (legR s _ h).2.created)
+    (hev : ∃ t E', (legR s _ h).2.time = .fin t ∧ owner mw.w.wires (legR s _ h).2.handler = some E' ∧
+      Commits3 env mw E' t s.cs cs') :
+    SysStep3 env geo mw 9 needs s (mkO s.cs occs' cand) (legR s _ h).2 (nextS s _ h cs' occs') where
+  occ1 := hocc
+  yields := rfl
+  leg := ok_of_toOption (Option.some_get h).symm
+  cands := hc
+  ev := hev
+  ids' := rfl
+  prev := rfl
+  mid' := rfl
+
+theorem normT (q : ℤ) (r : ℚ) (h0 : 0 ≤ r) (h1 : r < 1) : Normalised ⟨q, r⟩ := ⟨⟨q, rfl⟩, h0, h1⟩
+
+/-- a handler whose tagger is not a cell-boundary tagger -/
+theorem not_cb {h : HandlerId} {T : TaggerIdx} (ho : owner cfg.wires h = some T) (hk : (cfg.tagger T).kind ≠ .cellBoundary)
+    {P : Nat → Prop} : ∀ B l, owner mw.w.wires h = some B → isCBT mw.w l B = true → P l := by
+  intro B l hB hcb
+  have hB' : owner cfg.wires h = some B := hB
+  rw [ho] at hB'
+  cases hB'
+  exact absurd (isCBT_kind hcb).1 hk
+
+/-- the candidates of the handlers that are not cell-boundary handlers: normalised, not before the last commit -/
+theorem cand_plain {cs : List (CObj ℚ)} {last : XTime} {o : Oracle XTime} (q : HandlerId × IdTuple) {T : TaggerIdx}
+    (ho : owner cfg.wires q.1 = some T) (hk : (cfg.tagger T).kind ≠ .cellBoundary) (hn : NormX (o.cand q.1))
+    (hl : xcfg.lt (o.cand q.1) last = false) :
+    (∀ B l, owner mw.w.wires q.1 = some B → isCBT mw.w l B = true →
+      ∃ a u v ts, activeOn env l cs = [a] ∧ Sys2.unitAt cs (identL env l a) = some u ∧ u.vel = some v ∧ u.ts = some ts ∧
+        Kin.InBox env.base.L u.pos ∧ (geo l).velOK v ∧ last = .fin ts ∧
+        o.cand q.1 = .fin (Time.add Ops.rat ts ((geo l).ttb u.pos v))) ∧
+    (kindOfH mw.w q.1 ≠ .cellBoundary → NormX (o.cand q.1) ∧ xcfg.lt (o.cand q.1) last = false) :=
+  ⟨not_cb ho hk, fun _ => ⟨hn, hl⟩⟩
+
+/-- the candidate of the cell-boundary handler (handler 3, internal state 0): the root unit `u` of the active dipole `a` -/
+theorem cand_cb {cs : List (CObj ℚ)} {last : XTime} {o : Oracle XTime} (ids : IdTuple) (a : Nat) (u : PUnit ℚ) (v : List ℚ)
+    (ts : Time ℚ) (h1 : activeOn env 0 cs = [a]) (h2 : Sys2.unitAt cs (identL env 0 a) = some u) (h3 : u.vel = some v)
+    (h4 : u.ts = some ts) (h5 : Kin.InBox env.base.L u.pos) (h6 : (geo 0).velOK v) (h7 : last = .fin ts)
+    (h8 : o.cand 3 = .fin (Time.add Ops.rat ts ((geo 0).ttb u.pos v))) :
+    (∀ B l, owner mw.w.wires ((3, ids) : HandlerId × IdTuple).1 = some B → isCBT mw.w l B = true →
+      ∃ a u v ts, activeOn env l cs = [a] ∧ Sys2.unitAt cs (identL env l a) = some u ∧ u.vel = some v ∧ u.ts = some ts ∧
+        Kin.InBox env.base.L u.pos ∧ (geo l).velOK v ∧ last = .fin ts ∧
+        o.cand ((3, ids) : HandlerId × IdTuple).1 = .fin (Time.add Ops.rat ts ((geo l).ttb u.pos v))) ∧
+    (kindOfH mw.w ((3, ids) : HandlerId × IdTuple).1 ≠ .cellBoundary →
+      NormX (o.cand ((3, ids) : HandlerId × IdTuple).1) ∧ xcfg.lt (o.cand ((3, ids) : HandlerId × IdTuple).1) last = false) := by
+  refine ⟨?_, fun h => absurd (show kindOfH cfg 3 = .cellBoundary by decide) h⟩
+  intro B l hB hcb
+  have hB' : owner cfg.wires 3 = some B := hB
+  have h3o : owner cfg.wires 3 = some 3 := by decide
+  rw [h3o] at hB'
+  cases hB'
+  have hl : l = 0 := by
+    have : (cfg.tagger 3).label = some l := (isCBT_kind hcb).2
+    have h3l : (cfg.tagger 3).label = some 0 := by decide
+    rw [h3l] at this
+    exact (Option.some.inj this).symm
+  subst hl
+  exact ⟨a, u, v, ts, h1, h2, h3, h4, h5, h6, h7, h8⟩
+
+theorem velOK_x (l : Nat) (w : ℚ) (hw : 0 < w) : (geo l).velOK [w, 0] :=
+  ⟨rfl, 0, by simp, by simpa using hw, by
+    intro d' hd' hne
+    simp at hd'
+    have : d' = 1 := by omega
+    subst this; rfl⟩
+
+/-! leg 1: the start-of-run handler (9) is handed out, commits at time 0: point mass (0, 0) starts moving with velocity (1, 0) -/
+
+def cand1 : HandlerId → XTime := fun _ => .fin ⟨0, 0⟩
+theorem h1 : (leg M (specI xcfg) s0.med (mkO s0.cs [occ0] cand1)).toOption.isSome = true := by decide +kernel
+def cs1 : List (CObj ℚ) := step Ops.rat isZ env.base.L s0.cs (.start 0 [0] [1, 0])
+def s1 : Sys3 := nextS s0 _ h1 cs1 [occ0]
+def c1 : Committed XTime := (legR s0 _ h1).2
+
+theorem step1 : SysStep3 env geo mw 9 needs s0 (mkO s0.cs [occ0] cand1) c1 s1 := by
+  refine step_of s0 [occ0] cand1 h1 cs1 (by rw [if_neg (by decide)]; rfl) ?_
+    ⟨⟨0, 0⟩, 9, by decide +kernel, by decide +kernel, ?_⟩
+  · have hcr : (legR s0 _ h1).2.created = [(9, none)] := by decide +kernel
+    rw [hcr]
+    intro q hq
+    simp only [List.mem_singleton] at hq
+    subst hq
+    exact cand_plain _ (T := 9) (by decide) (by decide) (normT 0 0 (by norm_num) (by norm_num)) (by decide +kernel)
+  · exact ⟨.start 0 [0] [1, 0], by decide, rfl, ⟨JF.C12.ModeExample.start_admW, fun i P v h => by cases h; rfl⟩, rfl⟩
+
+/-! leg 2: the occupancy records dipole 0 as active in cell (2, 2); the cell taggers, the cell-boundary handler (candidate
+`0 + timeToBoundary = 1/2`: the centre of dipole 0 moves with speed 1/2 from x = 1/2 to the boundary x = 3/4), `harmonic` (5/8), … are
+handed out; the sampling event at 1/8 commits while the cell-boundary candidate is pending -/
+
+theorem hoccS (s : Sys3) (hs : s.med.act.started = true)
+    (h : (occAfter 2 oe (getOcc s.occs 0) s.cs).isSome = true) :
+    if s.med.act.started = true then
+      OccsUpdated env mw.w.labels.length s.occs [(occAfter 2 oe (getOcc s.occs 0) s.cs).get h] s.cs
+    else [(occAfter 2 oe (getOcc s.occs 0) s.cs).get h] = s.occs := by
+  rw [if_pos hs]
+  intro l hl
+  have : l = 0 := Nat.lt_one_iff.mp hl
+  subst this
+  exact (Option.some_get h).symm
+
+def occs1 : List Occ.State := [(occAfter 2 oe (getOcc s1.occs 0) s1.cs).get (by decide +kernel)]
+def cand2 : HandlerId → XTime := fun h =>
+  if h = 3 then .fin (Time.add Ops.rat ⟨0, 0⟩ (axisTtb [g4, g4] [1/2, 1/2] [1/2, 0]))
+  else if h = 6 then .fin ⟨0, 1/8⟩ else if h = 4 then .fin ⟨0, 5/8⟩ else if h = 7 then .fin ⟨10, 0⟩
+  else if h = 8 then .fin ⟨100, 0⟩ else .inf
+theorem h2 : (leg M (specI xcfg) s1.med (mkO s1.cs occs1 cand2)).toOption.isSome = true := by decide +kernel
+def cs2 : List (CObj ℚ) := step Ops.rat isZ env.base.L s1.cs (.keep ⟨0, 1/8⟩ [0])
+def s2 : Sys3 := nextS s1 _ h2 cs2 occs1
+def c2 : Committed XTime := (legR s1 _ h2).2
+
+theorem step2 : SysStep3 env geo mw 9 needs s1 (mkO s1.cs occs1 cand2) c2 s2 := by
+  refine step_of s1 occs1 cand2 h2 cs2 (hoccS s1 (by decide +kernel) _) ?_
+    ⟨⟨0, 1/8⟩, 6, by decide +kernel, by decide +kernel, ?_⟩
+  · have hcr : (legR s1 _ h2).2.created = [(0, some [[0], [1]]), (3, some [[0]]), (4, some [[0, 0], [0, 1]]),
+        (5, some [[0, 0], [1, 1]]), (6, none), (7, some [[0, 0]]), (8, none)] := by decide +kernel
+    rw [hcr]
+    intro q hq
+    simp only [List.mem_cons, List.not_mem_nil, or_false] at hq
+    rcases hq with rfl | rfl | rfl | rfl | rfl | rfl | rfl
+    · exact cand_plain _ (T := 0) (by decide) (by decide) trivial (by decide +kernel)
+    · exact cand_cb _ 0 ⟨[1/2, 1/2], some [1/2, 0], some ⟨0, 0⟩⟩ [1/2, 0] ⟨0, 0⟩ (by decide +kernel) (by decide +kernel) rfl rfl
+        (by norm_num [Kin.InBox, env, Footprints2.envOf, exL]) (velOK_x 0 (1/2) (by norm_num)) (by decide +kernel) rfl
+    · exact cand_plain _ (T := 4) (by decide) (by decide) (normT 0 (5/8) (by norm_num) (by norm_num)) (by decide +kernel)
+    · exact cand_plain _ (T := 5) (by decide) (by decide) trivial (by decide +kernel)
+    · exact cand_plain _ (T := 6) (by decide) (by decide) (normT 0 (1/8) (by norm_num) (by norm_num)) (by decide +kernel)
+    · exact cand_plain _ (T := 7) (by decide) (by decide) (normT 10 0 (by norm_num) (by norm_num)) (by decide +kernel)
+    · exact cand_plain _ (T := 8) (by decide) (by decide) (normT 100 0 (by norm_num) (by norm_num)) (by decide +kernel)
+  · exact ⟨.keep ⟨0, 1/8⟩ [0], by decide, rfl, ⟨trivial, fun i P v h => by cases h⟩, rfl⟩
+
+/-! leg 3: the sampling handler is handed out again (next sample at 3/4); the cell-boundary event of dipole 0 (time 1/2) commits -/
+
+def occs2 : List Occ.State := [(occAfter 2 oe (getOcc s2.occs 0) s2.cs).get (by decide +kernel)]
+def cand3 : HandlerId → XTime := fun h => if h = 6 then .fin ⟨0, 3/4⟩ else .inf
+theorem h3 : (leg M (specI xcfg) s2.med (mkO s2.cs occs2 cand3)).toOption.isSome = true := by decide +kernel
+def e3 : Composite.Ev ℚ := .snap ⟨0, 1/2⟩ [0] 0 none 0 (3/4)
+def cs3 : List (CObj ℚ) := step Ops.rat isZ env.base.L s2.cs e3
+def s3 : Sys3 := nextS s2 _ h3 cs3 occs2
+def c3 : Committed XTime := (legR s2 _ h3).2
+
+theorem adm3 : AdmW env.base.d env.base.L s2.cs e3 := by
+  intro c hc
+  have h : (sliceAt Ops.rat env.base.L ⟨0, 1/2⟩ [0] s2.cs)[0]? = some
+      ⟨⟨[3/4, 1/2], some [1/2, 0], some ⟨0, 1/2⟩⟩, [⟨[1/4, 1/2], some [1, 0], some ⟨0, 1/2⟩⟩, ⟨[1/4, 1/2], none, none⟩]⟩ := by
+    decide +kernel
+  rw [h] at hc
+  cases hc
+  rfl
+
+theorem step3 : SysStep3 env geo mw 9 needs s2 (mkO s2.cs occs2 cand3) c3 s3 := by
+  refine step_of s2 occs2 cand3 h3 cs3 (hoccS s2 (by decide +kernel) _) ?_
+    ⟨⟨0, 1/2⟩, 3, by decide +kernel, by decide +kernel, ?_⟩
+  · have hcr : (legR s2 _ h3).2.created = [(6, none)] := by decide +kernel
+    rw [hcr]
+    intro q hq
+    simp only [List.mem_singleton] at hq
+    subst hq
+    exact cand_plain _ (T := 6) (by decide) (by decide) (normT 0 (3/4) (by norm_num) (by norm_num)) (by decide +kernel)
+  · exact ⟨e3, by decide, rfl, ⟨adm3, fun i P v h => by cases h⟩, rfl⟩
+
+/-! leg 4: the cell taggers and the cell-boundary handler are re-created on the new cell (3, 2) (candidate `1/2 + timeToBoundary = 1`);
+the `harmonic` event handed out in leg 2 (5/8) is still pending and commits: lifting (0, 0) → (0, 1) inside dipole 0 -/
+
+def occs3 : List Occ.State := [(occAfter 2 oe (getOcc s3.occs 0) s3.cs).get (by decide +kernel)]
+def cand4 : HandlerId → XTime := fun h =>
+  if h = 3 then .fin (Time.add Ops.rat ⟨0, 1/2⟩ (axisTtb [g4, g4] [3/4, 1/2] [1/2, 0])) else .inf
+theorem h4 : (leg M (specI xcfg) s3.med (mkO s3.cs occs3 cand4)).toOption.isSome = true := by decide +kernel
+def e4 : Composite.Ev ℚ := .exchange ⟨0, 5/8⟩ [0] 0 0 0 1
+def cs4 : List (CObj ℚ) := step Ops.rat isZ env.base.L s3.cs e4
+def s4 : Sys3 := nextS s3 _ h4 cs4 occs3
+def c4 : Committed XTime := (legR s3 _ h4).2
+
+theorem adm4 : AdmW env.base.d env.base.L s3.cs e4 :=
+  ⟨by simp, fun _ => by decide, ⟨[3/8, 1/2], some [1, 0], some ⟨0, 5/8⟩⟩, ⟨[1/4, 1/2], none, none⟩, [1, 0],
+    by decide +kernel, rfl, by decide +kernel⟩
+
+theorem step4 : SysStep3 env geo mw 9 needs s3 (mkO s3.cs occs3 cand4) c4 s4 := by
+  refine step_of s3 occs3 cand4 h4 cs4 (hoccS s3 (by decide +kernel) _) ?_
+    ⟨⟨0, 5/8⟩, 4, by decide +kernel, by decide +kernel, ?_⟩
+  · have hcr : (legR s3 _ h4).2.created = [(0, some [[0], [1]]), (3, some [[0]])] := by decide +kernel
+    rw [hcr]
+    intro q hq
+    simp only [List.mem_cons, List.not_mem_nil, or_false] at hq
+    rcases hq with rfl | rfl
+    · exact cand_plain _ (T := 0) (by decide) (by decide) trivial (by decide +kernel)
+    · exact cand_cb _ 0 ⟨[3/4, 1/2], some [1/2, 0], some ⟨0, 1/2⟩⟩ [1/2, 0] ⟨0, 1/2⟩ (by decide +kernel) (by decide +kernel) rfl rfl
+        (by norm_num [Kin.InBox, env, Footprints2.envOf, exL]) (velOK_x 0 (1/2) (by norm_num)) (by decide +kernel) rfl
+  · exact ⟨e4, by decide, rfl, ⟨adm4, fun i P v h => by cases h⟩, rfl⟩
+
+/-! the run -/
+
+def os4 : List (Oracle XTime) :=
+  [] ++ [mkO s0.cs [occ0] cand1] ++ [mkO s1.cs occs1 cand2] ++ [mkO s2.cs occs2 cand3] ++ [mkO s3.cs occs3 cand4]
+def cs4c : List (Committed XTime) := [] ++ [c1] ++ [c2] ++ [c3] ++ [c4]
+
+theorem reach1 : Reach3 env geo mw 9 needs ([] ++ [mkO s0.cs [occ0] cand1]) ([] ++ [c1]) s1 :=
+  .step (.init s0 init0) (by simp) step1
+theorem reach2 : Reach3 env geo mw 9 needs ([] ++ [mkO s0.cs [occ0] cand1] ++ [mkO s1.cs occs1 cand2]) ([] ++ [c1] ++ [c2]) s2 :=
+  .step reach1 (by intro cl h; simp at h; subst h; decide +kernel) step2
+theorem reach3 : Reach3 env geo mw 9 needs
+    ([] ++ [mkO s0.cs [occ0] cand1] ++ [mkO s1.cs occs1 cand2] ++ [mkO s2.cs occs2 cand3]) ([] ++ [c1] ++ [c2] ++ [c3]) s3 :=
+  .step reach2 (by intro cl h; simp at h; subst h; decide +kernel) step3
+theorem reach4 : Reach3 env geo mw 9 needs os4 cs4c s4 :=
+  .step reach3 (by intro cl h; simp at h; subst h; decide +kernel) step4
+
+/-- the committed handlers and times: start of run at 0, sampling at 1/8, cell boundary at 1/2, `harmonic` at 5/8 -/
+example : cs4c.map (·.handler) = [9, 6, 3, 4] ∧
+    cs4c.map (·.time) = [.fin ⟨0, 0⟩, .fin ⟨0, 1/8⟩, .fin ⟨0, 1/2⟩, .fin ⟨0, 5/8⟩] := by
+  decide +kernel
+
+/-- the only cell-boundary handler of the configuration is handler 3 -/
+theorem cb_handler {l : Nat} {hb : HandlerId} (h : isCBH mw l hb) : hb = 3 := by
+  obtain ⟨B, ho, hcb⟩ := h
+  have ho' : owner cfg.wires hb = some B := ho
+  have hk : (cfg.tagger B).kind = .cellBoundary := (isCBT_kind hcb).1
+  have hB : B < 10 := owner_lt ho'
+  have hm := owner_mem ho'
+  revert hk hm
+  interval_cases B <;> intro hk hm <;> first | (exact absurd hk (by decide)) | skip
+  have : (getW cfg.wires 3).pool = [3] := by decide
+  rw [this] at hm
+  simpa using hm
+
+/-- **the no-tie hypothesis holds for this run**: the sampling event (1/8) is not committed at the time of the pending cell-boundary
+candidate (1/2); the other three commits affect the cell system -/
+theorem tieFree4 : TieFree3 mw cs4c := by
+  intro k cm hk E l hE hl haff hb hcb
+  have := cb_handler hcb
+  subst this
+  have hl0 : l = 0 := Nat.lt_one_iff.mp hl
+  subst hl0
+  have hk4 : k < 4 := (List.getElem?_eq_some_iff.mp hk).1
+  interval_cases k
+  all_goals
+    simp only [cs4c, List.nil_append, List.cons_append, List.getElem?_cons_zero, List.getElem?_cons_succ,
+      Option.some.injEq] at hk
+    subst hk
+  · decide +kernel
+  · decide +kernel
+  · exfalso
+    have h3 : owner cfg.wires c3.handler = some 3 := by decide +kernel
+    have hE' : owner cfg.wires c3.handler = some E := hE
+    rw [h3] at hE'
+    cases hE'
+    exact absurd haff (by decide)
+  · decide +kernel
+
+/-! ### the theorems apply -/
+
+/-- the joint invariant after the four legs -/
+example : JInv3 env mw 9 needs cs4c s4 := joint_inv3 hyp reach4 tieFree4
+
+/-- **(a) the former premise after the sampling commit (leg 2)**: the centre of dipole 0, time-sliced to 1/8 (x = 9/16), is still in
+its recorded cell (2, 2) = 10 -/
+example : StaysInRecordedCell env.base.nPer (env.oe 0) (getOcc s2.occs 0) s2.cs :=
+  staysInRecordedCell_closed3 hyp reach2 (tieFree3_take (k := 2) tieFree4) (cl := c2) (by simp) (E := 6) (by decide +kernel)
+    (by decide) (by decide)
+example : activeOn env 0 s2.cs = [0] ∧ (getOcc s2.occs 0).activeCell = some 10 ∧
+    posOn 2 1 s2.cs 0 = [9/16, 1/2] := by decide +kernel
+
+/-- (b) C09 in the middle of the fourth leg, and it speaks about non-empty pending lists: the cell-bounding tagger's event carries
+(dipole 0, dipole 1), the cell-boundary tagger's `((0,),)`, `harmonic` the bond of dipole 0 -/
+example : ∃ hi : Inv3 env mw ⟨s4.csPrev, .leaf, s4.occs⟩,
+    ∀ T, (world3 env mw).live T → Fresh (world3 env mw) ⟨s4.mid, s4.ids, ⟨_, hi⟩⟩ T :=
+  let ⟨hi, h, _⟩ := c09_fresh_closed3 hyp reach4 tieFree4 (by decide); ⟨hi, h⟩
+example : (getT s4.mid 0).running.map s4.ids = [some [[0], [1]]] ∧ (getT s4.mid 3).running.map s4.ids = [some [[0]]] ∧
+    (getT s4.mid 4).running.map s4.ids = [some [[0, 0], [0, 1]]] := by decide +kernel
+
+/-- C11's mirror in the middle of leg 4: dipole 0 active in its recorded cell (3, 2) = 11 -/
+example : (getOcc s4.occs 0).activeCell = some ((env.oe 0).cellOf (posOn env.base.nPer (env.oe 0).level s4.csPrev 0)) :=
+  c11_active_in_recorded_cell_closed3 hyp reach4 tieFree4 (by decide) (l := 0) (by decide) (a := 0) (by decide +kernel) rfl
+example : (getOcc s4.occs 0).activeCell = some 11 := by decide +kernel
+
+/-- (c) commit times sorted, and the C17 link on the run: in leg 3 the sampling candidate 3/4 is pending, the committed time 1/2 is
+not later -/
+example : cs4c.Pairwise (fun a b => xcfg.lt b.time a.time = false) := commit_times_sorted_closed3 hyp reach4 tieFree4
+example : xcfg.lt (.fin ⟨0, 3/4⟩) c3.time = false :=
+  (no_sample_skipped3 hyp reach4 (k := 2) (cm := c3) (by simp [cs4c]) (hs := 6) (ts := .fin ⟨0, 3/4⟩) (by decide)
+    (by decide +kernel) rfl).1
+
+/-- `c08_stale_trashed_closed3`: the lifting of leg 4 (tagger 4 `harmonic`, motion-changing) finds the cell-bounding event of handler
+0 pending — it is in the trash list of that leg -/
+example : (0 : HandlerId) ∈ c4.trashed :=
+  (c08_stale_trashed_closed3 hyp reach4 tieFree4 (k := 3) (j := 3) (ck := c4) (cj := c4) (by simp [cs4c]) (E := 4)
+    (by decide +kernel) (by decide) (h := 0) (T := 0) (by decide) (by decide) (by decide +kernel)).1
+
+end Example
 end JF.SystemInv3Loop
